@@ -326,6 +326,10 @@ def _higher_order_contexts(prog, f, bb, kd, aops):
     return out
 
 
+def _no_helpers(call):
+    return False
+
+
 def rule_R16_2(ctx):
     prog = ctx.prog
     r = RuleResult("R16.2", "typed contexts accept exactly their documented "
@@ -333,10 +337,37 @@ def rule_R16_2(ctx):
                    "a context accepting another kind converts implicitly; "
                    "one rejecting a documented kind breaks a construct")
     seen = {}
-    for f in prog.hand_fns():
+    label_from_view = {}
+    import inline
+
+    need = list(CONTEXTS) + ["IncorrectType(%s)" % n for n in INCORRECT_TYPE]
+
+    def fns_to_scan():
+        for f in prog.hand_fns():
+            yield f, False
+        # (fallback only: contexts whose reject-side error was not found above)
+        if all(seen.get(n, 0) >= 1 for n in need):
+            return
+        # generic plumbing (`eval_expr_to_bool` -> `eval_expr_to(.., into_bool)`
+        # -> `eval_expr_as(.., narrow, new_err)`): each concrete wrapper is read
+        # with the callback-taking helpers, the callbacks handed to them and
+        # their closures inlined, which puts the kind test and the error of
+        # the context back into one body
+        cbs = inline.callback_helpers(prog)
+        if cbs:
+            for f in prog.hand_fns():
+                if f.is_closure or f.from_expansion or f.path in cbs:
+                    continue
+                if any((not c.is_ptr) and c.res in cbs for c in f.calls()):
+                    v = inline.view(prog, f, pick=_no_helpers, callbacks=True, closures=True)
+                    if v is not f:
+                        yield v, True
+    for f, is_view in fns_to_scan():
         if f.from_expansion or f.module.startswith("eval::error"):
             continue
         for bb, i, pl, kd, aops, sp in f.aggregates(ERR):
+            if is_view and inline.origin_of(f, bb) == f.path:
+                continue      # (the wrapper's own sites were scanned above)
             v = kd["variant"]
             exp = None
             label = v
@@ -357,6 +388,8 @@ def rule_R16_2(ctx):
                             cp2 = f.canon_op(c.args[0])
                             if cp2[0][0] == "const":
                                 name = eval(cp2[0][1]) if cp2[0][1].startswith(("'", '"')) else None
+                if name not in INCORRECT_TYPE and is_view:
+                    continue
                 if name not in INCORRECT_TYPE:
                     ho = _higher_order_contexts(prog, f, bb, kd, aops)
                     if not ho:
@@ -385,6 +418,10 @@ def rule_R16_2(ctx):
                 label = "IncorrectType(%s)" % name
             else:
                 continue
+            if is_view and seen.get(label, 0) >= 1 and not label_from_view.get(label):
+                continue      # already decided on the plain functions
+            if is_view:
+                label_from_view[label] = True
             got = guard_set(f, bb)
             seen.setdefault(label, 0)
             seen[label] += 1
@@ -404,7 +441,6 @@ def rule_R16_2(ctx):
                        "documented: %s (extra %s, missing %s)"
                        % (label, f.path, sorted(got), sorted(exp), extra, missing),
                        where=mir.span_loc(sp))
-    need = list(CONTEXTS) + ["IncorrectType(%s)" % n for n in INCORRECT_TYPE]
     for n in need:
         if seen.get(n, 0) < 1:
             r.fail("anchor-missing context=%s" % n,
